@@ -79,6 +79,19 @@ def v_c14(tier, seed):
             ws.append(W('dw.%s.%s.overlap' % (kname(k1), kname(k2)), overlap, 'fail', 'borrow', 'two live results of repeated World::entry queries'))
         if tier == 'thorough' or (k1, k2) in ((KINDS[1], KINDS[1]), (KINDS[0], KINDS[1])):
             ws.append(W('dw.%s.%s.sequential' % (kname(k1), kname(k2)), seq, 'compile', None, 'sequential World::entry queries'))
+    # (g) results keep the world borrowed: two live results of separate calls, or a result kept across a mutation
+    def g(key, code, expect, note):
+        ws.append(W('g.' + key, PRELUDE + code, expect, 'borrow' if expect == 'fail' else None, note))
+    for m1, m2 in ((True, True), (False, True), (True, False)):
+        v1, v2 = '&%sA' % ('mut ' if m1 else ''), '&%sA' % ('mut ' if m2 else '')
+        n = '%s.%s' % ('mut' if m1 else 'ref', 'mut' if m2 else 'ref')
+        g('query2.' + n, 'pub fn w(world: &mut World<R, Res>) {\n    let mut r1 = world.query(Query::<Views!(%s)>::new());\n    let mut r2 = world.query(Query::<Views!(%s)>::new());\n    use2(r1.iter.next(), r2.iter.next());\n}\n' % (v1, v2), 'fail', 'two live World::query results')
+    g('query2.sequential', 'pub fn w(world: &mut World<R, Res>) {\n    { let mut r1 = world.query(Query::<Views!(&mut A)>::new()); use2(r1.iter.next(), ()); }\n    { let mut r2 = world.query(Query::<Views!(&mut A)>::new()); use2(r2.iter.next(), ()); }\n}\n', 'compile', 'sequential World::query results')
+    g('query.then-clear', 'pub fn w(world: &mut World<R, Res>) {\n    let mut r1 = world.query(Query::<Views!(&A)>::new());\n    let a = r1.iter.next();\n    world.clear();\n    use2(a, ());\n}\n', 'fail', 'a view kept across World::clear')
+    g('query.res2', 'pub fn w(world: &mut World<R, Res>) {\n    let r1 = world.query(Query::<Views!(), filter::None, Views!(&mut RA)>::new());\n    let r2 = world.query(Query::<Views!(), filter::None, Views!(&mut RA)>::new());\n    use2(r1.resources, r2.resources);\n}\n', 'fail', 'two live mutable resource views from two World::query calls')
+    g('view_resources2', 'pub fn w(world: &mut World<R, Res>) {\n    let a = world.view_resources::<Views!(&mut RA), _>();\n    let b = world.view_resources::<Views!(&mut RA), _>();\n    use2(a, b);\n}\n', 'fail', 'two live results of World::view_resources')
+    g('entry.then-clear', 'pub fn w(world: &mut World<R, Res>, id: ent::Identifier) {\n    let mut entry = world.entry(id).unwrap();\n    world.clear();\n    let _ = entry.query(Query::<Views!(&A)>::new());\n}\n', 'fail', 'a World::entry kept across World::clear')
+    g('get_mut2', 'pub fn w(world: &mut World<R, Res>) {\n    let a = world.get_mut::<RA, _>();\n    let b = world.get_mut::<RA, _>();\n    use2(a, b);\n}\n', 'fail', 'two live World::get_mut results')
     # (e) resource views
     RK = [False, True]
     for m1, m2 in itertools.product(RK, RK):
